@@ -142,6 +142,8 @@ type Spec struct {
 	// PanicOnBuild > 0: the PanicOnBuild-th construction of this program's slice (1 = on the driver,
 	// 2 = the first worker that compiles the invocation, ...) panics.
 	PanicOnBuild int `json:"panic_on_build,omitempty"`
+	// CacheBase is prepended to the cache prefix of Cache/CachePartial/ReadCache nodes.
+	CacheBase string `json:"cache_base,omitempty"`
 	Nodes []Node    `json:"nodes"`
 	Args  []ArgInfo `json:"args,omitempty"`
 }
